@@ -148,6 +148,14 @@ def cases(tier, seed):
             continue
         for n1_, n2_ in ((3, 31), (31, 2), (1, 40)):
             yield {"kind": "relations", "kernel": name, "pbatch": [], "xbatch": rnd.choice([[], [2]]), "n1": n1_, "n2": n2_, "far": rnd.choice([3e3, 3e4]), "seed": rnd.randrange(10**6)}
+    # derivative kernels over other input dimensions in the same process, with block sizes n*(d+1) that coincide across
+    # dimensions (6 x 2 = 4 x 3 = 3 x 4 = 12; 4 x 2 = 2 x 4 = 8): anything memoised per size instead of per (n, d) shows
+    for rep_ in range(2):
+        for name in GRADLIKE:
+            if name == "rbfgradgrad_ard":
+                continue
+            for d_in, n1_, n2_ in ((1, 6, 4), (2, 4, 4), (3, 3, 2), (2, 4, 1), (1, 6, 6)):
+                yield {"kind": "relations", "kernel": name, "pbatch": [], "xbatch": [], "n1": n1_, "n2": n2_, "d_in": d_in, "seed": rnd.randrange(10**6)}
     yield from _chain_cases(tier, rnd)
 
 
@@ -220,6 +228,15 @@ def _data(case, g):
 
 
 def run_case(case, ctx):
+    global D_IN
+    D_IN = case.get("d_in", 3)
+    try:
+        return _run_case(case, ctx)
+    finally:
+        D_IN = 3
+
+
+def _run_case(case, ctx):
     import torch
 
     from gpytorch import settings as S
